@@ -97,8 +97,11 @@ void run_file(Ctx &c, const sim::Op &op) {
     simfile::ReadStats st = simfile::read_stats();
     // a transient read error (one failed read call, after which the data continues) may legitimately be absorbed:
     // the call may then succeed, provided the contents are complete and correct (checked below)
-    bool transient = (st.error_fired && !s.read_error_persistent) || st.close_error_fired;
-    bool fault_hit = s.fopen_errno || (!with_hint && (s.fstat_errno || s.fileno_fails)) || (st.error_fired && !transient);
+    // Likewise a failing fstat/fileno (the size query) or a failing close need not fail the call - an implementation may measure the
+    // file another way or ignore the close - as long as a reported success comes with the complete, correct contents.
+    bool soft = !with_hint && (s.fstat_errno || s.fileno_fails);
+    bool transient = (st.error_fired && !s.read_error_persistent) || st.close_error_fired || soft;
+    bool fault_hit = s.fopen_errno || (st.error_fired && !(st.error_fired && !s.read_error_persistent));
     if (transient) sim::probe(rc == AWS_OP_SUCCESS ? "transient_read_error_absorbed" : "transient_read_error_reported");
     if (st.opens != 1) sim::violation("c01:file-open", "the file was opened %d times", st.opens);
     if (st.closes != (s.fopen_errno ? 0 : 1)) sim::violation("c01:file-close", "the stream was closed %d times (opened: %s)", st.closes, s.fopen_errno ? "no" : "yes");
